@@ -1880,3 +1880,46 @@ pub fn shrink(sp: &Value, class: &str, key: &str) -> Value {
     out["expect"] = sp["expect"].clone();
     out
 }
+
+
+// ---------------------------------------------------------------------------------------------
+// C03 across retained lines: the same sessions, judged only by the heap invariants (a value reachable
+// from a variable must stay allocated and unchanged also when that variable lives across lines)
+
+pub fn scenarios_c03(tier: Tier) -> u64 {
+    DIRECTED
+        + match tier {
+            Tier::Quick => 4_000,
+            Tier::Thorough => 100_000,
+        }
+}
+
+pub fn scenario_c03(acc: &mut Acc, seed: u64, index: u64, tier: Tier) {
+    let mut sub = Acc::new(acc.solo);
+    let mapped = if index < DIRECTED { index } else { DIRECTED + enumerated_count(tier) + (index - DIRECTED) };
+    scenario(&mut sub, seed, mapped, tier);
+    for (k, v) in &sub.counters {
+        acc.count(&format!("session_{}", k), *v);
+    }
+    for (k, set) in &sub.distinct {
+        for h in set {
+            acc.distinct(&format!("session_{}", k), *h);
+        }
+    }
+    for (_, h) in &sub.log_hashes {
+        acc.log(index, *h);
+    }
+    if index % 400 == 7 {
+        for smp in sub.samples.iter().take(1) {
+            acc.sample(smp.clone());
+        }
+    }
+    for mut v in sub.violations {
+        let base = v.class.clone();
+        if HEAP_CLASSES.contains(&base.as_str()) {
+            v.property = "C03".into();
+            v.index = index;
+            acc.violation(v);
+        }
+    }
+}
